@@ -56,9 +56,6 @@ func VerifC15_new() {
 		dv = divider.Rate
 	}
 	d, err := New(Opts[int]{Divider: dv, HandlersQuantity: e.H, Inputs: inputs})
-	if kind == 0 || kind == 2 {
-		vAssert(e.H == 0 || e.divCalls == 1, "the constructor divides exactly once")
-	}
 	if e.faultSeen {
 		vAssert(err == ErrDividerBad, "C15: New returns ErrDividerBad when the divider breaks the sum rule at creation")
 		vAssert(vSpawnCount() == 0, "C19: no goroutine is started when New fails")
